@@ -4,7 +4,10 @@
     Input (integers):
       exraw cap  nsetup sig*  nacts (kind a b)*  nscript (op arg)*  nsched act*
     activity kinds: 1 delivery of signal a with record b, 2 the consumer (runs the script),
-    3 close(), 4 add_signal(a).  Script ops: 1 pending, 2 wait, 3 forever (SignalIterator::new),
+    3 close(), 4 add_signal(a), 5 a SCANNER: another thread draining the a-th of the batches handed out
+    during set-up (one pending() call per scanner before the schedule starts; a [Pending] is an owned,
+    sendable value, so batches of one instance can be walked by several threads at once; the consumer's
+    own batches are numbered after them).  Script ops: 1 pending, 2 wait, 3 forever (SignalIterator::new),
     4 Forever::next, 5 poll_signal with the non-blocking callback, 6 one next() on the arg-th
     handed-out batch, 7 drain the arg-th handed-out batch.
     The schedule is the sequence of activities that performed a synchronisation operation in
@@ -131,12 +134,30 @@ Definition pool_step (a : nat) (spawn : label) (st : rstate) : rstate * list (na
   | None => (st, [])
   end.
 
+(** One load of a scanner draining set-up batch [k]; [r_idx] of the activity records that it has started. *)
+Definition scan_step (a k : nat) (st : rstate) : rstate * list (nat * ev) :=
+  let started := match nth_error (r_idx st) a with Some (Some _) => true | _ => false end in
+  let st0 := if started then st else mkR (r_w st) (upd (r_idx st) a (Some 0%nat)) (r_script st) (r_mode st) in
+  let e0 := if started then [] else [(a, mkEv 33 0 (1000 + Z.of_nat k) 0 1)] in
+  if bat_done (r_w st0) k then (st0, e0 ++ (if started then [] else [(a, mkEv 34 0 0 0 1)]))
+  else
+    let '(w', es) := wstep (r_w st0) (LBatch k) in
+    let st1 := mkR w' (r_idx st0) (r_script st0) (r_mode st0) in
+    match es with
+    | e :: _ =>
+        if e_ok e =? 1 then (st1, e0 ++ tag a es ++ [(a, mkEv 34 0 1 (e_loc e - 100) 1)])
+        else if bat_done w' k then (st1, e0 ++ tag a es ++ [(a, mkEv 34 0 0 0 1)])
+        else (st1, e0 ++ tag a es)
+    | [] => (st1, e0)
+    end.
+
 Definition step_act (acts : list (Z * Z * Z)) (st : rstate) (a : nat) : rstate * list (nat * ev) :=
   match nth_error acts a with
   | Some (k, x, y) =>
       if k =? 1 then pool_step a (LSpawnH (Z.to_nat x) y) st
       else if k =? 2 then cons_step a st
       else if k =? 3 then pool_step a LSpawnK st
+      else if k =? 5 then scan_step a (Z.to_nat x) st
       else pool_step a (LSpawnA (Z.to_nat x)) st
   | None => (st, [])
   end.
@@ -160,10 +181,19 @@ Fixpoint setup_sigs (w : world) (sigs : list Z) : world :=
       setup_sigs w4 r
   end.
 
+(** the batches handed out during set-up: one complete pending() call each (nothing delivered yet) *)
+Fixpoint setup_bats (n : nat) (w : world) : world :=
+  match n with
+  | O => w
+  | S n' => let '(w1, _) := wstep w (LCall OPending) in
+            let '(w2, _) := wstep w1 (LCons 0) in setup_bats n' w2
+  end.
+
 Definition fin_flag (st : rstate) (acts : list (Z * Z * Z)) (a : nat) : Z :=
   match nth_error acts a, nth_error (r_idx st) a with
   | Some (k, _, _), Some i =>
       if k =? 2 then (match r_mode st, r_script st with MIdle, [] => 1 | _, _ => 0 end)
+      else if k =? 5 then (match nth_error acts a with Some (_, x, _) => if bat_done (r_w st) (Z.to_nat x) then 1 else 0 | None => 0 end)
       else match i with
            | None => 2
            | Some j => match nth_error (w_fr (r_w st)) j with
@@ -190,7 +220,8 @@ Definition run_iter (inp : list Z) : list Z :=
               let '(script, r5) := take2 (Z.to_nat nscr) r4 in
               match r5 with
               | nsch :: sch =>
-                  let w0 := setup_sigs (w_init (raw =? 1) (Z.to_nat c)) sigs in
+                  let nscan := length (filter (fun t => let '(k, _, _) := t in k =? 5) acts) in
+                  let w0 := setup_bats nscan (setup_sigs (w_init (raw =? 1) (Z.to_nat c)) sigs) in
                   let st0 := mkR w0 (map (fun _ => None) acts) script MIdle in
                   let '(st1, es) := run_sched acts st0 (firstn (Z.to_nat nsch) sch) in
                   flat es ++ [-1] ++ map (fin_flag st1 acts) (seq 0 (length acts))
